@@ -347,10 +347,20 @@ def o75(ctx):
     S_ = Space("the caller's angle array", how="root")
     src_ = Arr([sym("a0"), sym("a1"), sym("a2")], 2, space=S_)
     it3 = Interp(ctx.prog, assume=assume_map({"isinstance(input_angles, str)": False, "isinstance(input_angles, np.ndarray)": True}))
-    r3 = it3.run(qa, [src_], {"angles_order": K("zxz")})
-    if not isinstance(r3.ret, Arr):
-        raise Unsupported("rot_angles_load(ndarray) result not recognised", fa)
-    same_rows_same_order(ctx, qa, r3.ret, src_, "rot_angles_load(ndarray) returns the rows as given", fa, ma)
+    for order_ in ("zxz", "zzx"):
+        it3 = Interp(ctx.prog, assume=assume_map({"isinstance(input_angles, str)": False, "isinstance(input_angles, np.ndarray)": True}))
+        src_ = Arr([sym("a0"), sym("a1"), sym("a2")], 2, space=S_)
+        r3 = it3.run(qa, [src_], {"angles_order": K(order_)})
+        if not isinstance(r3.ret, Arr):
+            raise Unsupported("rot_angles_load(ndarray) result not recognised", fa)
+        same_rows_same_order(ctx, qa, r3.ret, src_, f"rot_angles_load(ndarray, {order_!r}) returns the rows as given", fa, ma)
+        # ... and the columns as given: an array list directly holds phi, theta, psi (the order option describes angle *files*); the peak
+        # extraction reads column k of what it gets for both orders
+        ctx.count(1, {"array list, angles_order": order_, "returned columns": [tm.show(c_) for c_ in r3.ret.cols]})
+        if [c_ for c_ in r3.ret.cols] != [sym("a0"), sym("a1"), sym("a2")]:
+            ctx.finding(qa, f"array input, angles_order={order_!r}", "an angle list given as an array is returned with its columns as given (phi, theta, psi) "
+                        f"whatever angles_order says; got {[tm.show(c_) for c_ in r3.ret.cols]}: every peak extracted with this list carries two of its "
+                        "angles exchanged", fa, ma)
     if True:
         pass
     # the tm function loads the list with the caller's order
